@@ -418,14 +418,18 @@ func (g *gen) dataOutstanding(side string) bool {
 // HEADER_TABLE_SIZE occur two or three times with different values - the way a stack that appends
 // overrides to a list of defaults writes it - between other and unknown identifiers.
 //
-// Two restrictions keep the schedule inside what the unchanged relay is known to do right:
-//   - the relay scans its queues after EACH value of INITIAL_WINDOW_SIZE (updateInitialWindowSize),
-//     so an earlier, larger value releases DATA that the value in force no longer covers; a chain
-//     whose last value is not its largest is therefore only written while no DATA is outstanding
-//     towards this endpoint (reported as a proposal, not hidden: see docs/asbuilt);
-//   - x/net's hpack.Decoder accepts one dynamic-table-size update at the start of a block unless its
-//     table is empty, and hpack.Encoder announces "minimum, then final" after several changes: the
-//     last HEADER_TABLE_SIZE of a chain is its smallest (and the rule of rcvLedger.tblPending holds).
+// The relay scans its queues after EACH value of INITIAL_WINDOW_SIZE (updateInitialWindowSize), so an
+// earlier, larger value releases DATA that the value in force no longer covers (F51, class
+// settings-larger-intermediate-initial-window).  Such chains are written with and without DATA
+// outstanding towards this endpoint: with DATA outstanding a bounded share (30 %) of the chains has
+// a non-final value above the last one, aimed with this endpoint's ledger at the head frame of a
+// blocked stream (exact fit / one short / one over / everything queued) or the 65535 default; the
+// ledger-stream clause judges what arrives, Classify decides the class from the schedule.
+//
+// One restriction keeps the schedule inside what x/net's hpack accepts: hpack.Decoder accepts one
+// dynamic-table-size update at the start of a block unless its table is empty, and hpack.Encoder
+// announces "minimum, then final" after several changes: the last HEADER_TABLE_SIZE of a chain is
+// its smallest (and the rule of rcvLedger.tblPending holds).
 func (g *gen) repeatedSettings(side string, me *rcvLedger, pickWin func() uint32) [][2]uint32 {
 	r := g.r
 	type chain struct {
@@ -439,9 +443,36 @@ func (g *gen) repeatedSettings(side string, me *rcvLedger, pickWin func() uint32
 		last := pickWin()
 		vals := make([]uint32, n)
 		vals[n-1] = last
-		down := !g.dataOutstanding(side) && r.Chance(60)
+		outstanding := g.dataOutstanding(side)
+		down := r.Chance(60)
+		if outstanding {
+			down = r.Chance(30)
+		}
+		// values that would release the head DATA frame (or all) of a stream this endpoint holds back
+		var aims []uint32
+		if down && outstanding {
+			for _, s := range g.streams {
+				p := me.pend[s]
+				if len(p) == 0 || p[0] == 0 {
+					continue
+				}
+				all := int64(0)
+				for _, l := range p {
+					all += int64(l)
+				}
+				// window of s under a value v: v + (increments - octets received)
+				off := me.win(s) - me.initWin
+				for _, v := range []int64{int64(p[0]) - off, int64(p[0]) - off - 1, int64(p[0]) - off + 1, all - off} {
+					if v > int64(last) && v < 1<<31 {
+						aims = append(aims, uint32(v))
+					}
+				}
+			}
+		}
 		for i := 0; i < n-1; i++ {
 			switch {
+			case len(aims) > 0 && r.Chance(60):
+				vals[i] = core.Pick(r, aims)
 			case down && r.Chance(50):
 				vals[i] = 65535 // the default, written out before the override
 			case down:
